@@ -14,7 +14,8 @@ register('C19', 'model_checking',
          "arrays overwritten after update, and for bounded histories that an update is either recorded or refused.",
          "reals for floats; times strictly increasing; bounded number of updates (<=6 quick, <=12 thorough, 2100 with "
          "concrete times); up to three symbolic queries in arbitrary order on one object; dtype=object stands for float64, "
-         "other dtypes (complex128, int64, float32) only through a concrete probe at the record times; float() inside "
+         "other dtypes (complex128, int64, float32) only through a concrete probe at the record times; exactness at the "
+         "record times is decided separately in z3's floating-point theory (Float64, finite values <= 1e100); float() inside "
          "base_backend stubbed to identity on symbols",
          "symbolic execution of the real class (symx path exploration + z3)", "7/C19")
 register('C03', 'model_checking',
@@ -95,7 +96,9 @@ register('C09', 'translation_validation',
          "round(d/dt) steps ago) and undelayed edges the current value - for mixtures of delayed/undelayed edges, several "
          "delays per source or target, delays that are not multiples of dt, vectorize on and off. One step from an "
          "arbitrary valid buffer covers runs of any length; the zero pre-history is the initial buffer (checked "
-         "concretely).",
+         "concretely). Run level: the real Euler/Heun kernels integrate the emitted (stateful) text for K steps on symbolic "
+         "state; afterwards every ring buffer must hold its source's recorded trajectory shifted by one slot per STEP "
+         "(the Heun kernel evaluates the field twice per step: recorded finding).",
          "reals for floats; delays rounding to 2..4 (quick) / 2..6 (thorough) steps, <= 5 nodes, <= 5 edges; buffers are "
          "identified by a concrete marker run (a cell receives another cell's marker); Connectivity ring buffers are "
          "handled under C16; JAX refuses ring buffers (C20)",
@@ -196,7 +199,9 @@ register('C16', 'translation_validation',
          "symbol bound by value, so a transposition or a unit permutation changes the term. Population outputs of run() "
          "are checked by tag flow (one column per unit, in unit order).",
          "reals for floats; 1..3 units per population, two populations, sparse signed non-square matrices; dynamic "
-         "(state-bearing) coupling edges are not generated (outside); einsum is a library model validated per run",
+         "coupling operators (one state per target/source pair) are located by z3 through their differential equation "
+         "(population build only); two delayed connectivities per source variable; einsum is a library model validated "
+         "per run",
          "SMT translation validation of population vs explicit network (symx + z3)", "7/C16")
 register('C12', 'translation_validation',
          "The text emitted by get_run_func is executed in forward-mode automatic differentiation over z3 terms (state "
